@@ -116,7 +116,25 @@ def _slot(v):
     return "u" if v is None else str(int(v))
 
 
-def _real_session(rng, buf, mode, filters, password, members, bs, tmp, tag, header="raw"):
+class IdDecompressor:
+    """stands in for SevenZipDecompressor when the scripted header stages leave the bytes as they are"""
+
+    def __init__(self, coders, packsize, unpacksizes, crc, password=None, blocksize=None):
+        self.remaining = packsize
+        self.consumed = 0
+
+    def decompress(self, fp, max_length=-1):
+        n = self.remaining if max_length is None or max_length < 0 else min(self.remaining, max_length)
+        data = fp.read(n)
+        self.remaining -= len(data)
+        self.consumed += len(data)
+        return data
+
+
+IDENTITY_KINDS = ["copy", "hold", "lag"]
+
+
+def _real_session(rng, buf, mode, filters, password, members, bs, tmp, tag, header="raw", identity=False):
     """One real SevenZipFile session (mode 'w' or 'a') on `buf` with scripted codec stages and a deterministic clock.
     Returns the tokens the model needs: (enable, coders, methods_map, stage kinds, member tokens)."""
     import py7zr
@@ -129,7 +147,7 @@ def _real_session(rng, buf, mode, filters, password, members, bs, tmp, tag, head
 
     def factory(filters=None, password=None, blocksize=None):
         c = Real(filters=filters, password=password, blocksize=blocksize)
-        kinds = [rng.choice(KINDS) for _ in c.chain]
+        kinds = [rng.choice(IDENTITY_KINDS if identity else KINDS) for _ in c.chain]
         kinds_box.append(kinds)
         c.chain = [Stage(k) for k in kinds]
         c._unpacksizes = [0] * len(kinds)
@@ -143,6 +161,9 @@ def _real_session(rng, buf, mode, filters, password, members, bs, tmp, tag, head
         return helpers.ArchiveTimestamp(clock[0])
 
     ai.SevenZipCompressor = factory
+    real_dec = ai.SevenZipDecompressor
+    if identity:
+        ai.SevenZipDecompressor = IdDecompressor
     comp.get_default_blocksize = lambda: bs
     helpers.ArchiveTimestamp.from_now = staticmethod(now)
     snap = {}
@@ -174,6 +195,7 @@ def _real_session(rng, buf, mode, filters, password, members, bs, tmp, tag, head
         z.close()
     finally:
         ai.SevenZipCompressor = Real
+        ai.SevenZipDecompressor = real_dec
         comp.get_default_blocksize = real_bs_c
         helpers.ArchiveTimestamp.from_now = real_now
     if made:
@@ -248,6 +270,7 @@ def run_arch(ctx, n=None, n_app=None):
     alines, aouts, acls = [], [], []
     elines, eouts, ecls = [], [], []
     olines, oouts, eolines, eoouts, aolines, aoouts = [], [], [], [], [], []
+    ealines, eaouts, eacls = [], [], []
     try:
         os.mkdir(os.path.join(tmp, "d"))
 
@@ -309,8 +332,28 @@ def run_arch(ctx, n=None, n_app=None):
                 aolines.append("ws.aops %s %s" % (hx(base), toks))
                 aoouts.append(ops_tok(buf.ops))
                 acls.append("base=%s/session=%d/%s->%s%s/members=%d" % (shape, k + 1, lab, lab2, "+AES" if password2 else "", len(am)))
+        # append sessions in the DEFAULT (encoded) header mode, base and append alike: the header's own compressor and
+        # the decoder that reads it back are scripted stages that leave the bytes as they are (copy / hold / lag), the
+        # members' stages likewise; the model locates the packed header through the EncodedHeader record, parses it
+        # with the reader model, extends it and writes packed header + record after the new data
+        for it in range(max(10, n_app // 3)):
+            lab, filters = chains[it % len(chains)] if it < len(chains) else rng.choice(chains)
+            shape = rng.choice(["data", "data", "dirs-only", "single", "nothing"])
+            base_members = {"data": _gen_members(rng), "dirs-only": [("d%d" % i, "dir", b"") for i in range(rng.choice([1, 2]))],
+                            "single": [("one", "str", rng.randbytes(9))], "nothing": []}[shape]
+            buf = io.BytesIO()
+            _real_session(rng, buf, "w", filters, None, base_members, rng.choice([3, 7, 64, 1000]), tmp, "eb%d" % it, header="encoded", identity=True)
+            for k in range(rng.choice([1, 1, 2])):
+                base = buf.getvalue()
+                lab2, filters2 = rng.choice(chains)
+                am = rng.choice([_gen_members(rng, (1, 2, 3)), _gen_members(rng, (1, 2, 3)), [("ead%d" % k, "dir", b"")], []])
+                toks = _real_session(rng, buf, "a", filters2, None, am, rng.choice([3, 7, 64, 1000]), tmp, "ea%d_%d" % (it, k), header="encoded", identity=True)
+                ealines.append("ws.eapp %s %s" % (hx(base), toks))
+                eaouts.append(hx(buf.getvalue()))
+                eacls.append("base=%s/session=%d/%s->%s/members=%d" % (shape, k + 1, lab, lab2, len(am)))
     finally:
         shutil.rmtree(tmp, ignore_errors=True)
+    ctx.correspond("ws.eapp", ealines, eaouts, eacls)
     ctx.correspond("ws.arch", lines, outs, cls)
     ctx.correspond("ws.app", alines, aouts, acls)
     ctx.correspond("ws.enc", elines, eouts, ecls)
